@@ -171,6 +171,35 @@ def is_call_to(term, *defs):
     return "call" in term and term["call"].get("def") in defs
 
 
+def resolve_const(body, op, depth=0):
+    """constant behind an operand, also through `&local` and promoted references"""
+    r = resolve_copy(body, op)
+    if r[0] == "const":
+        c = r[1]
+        if "promoted" in c:
+            pc = promoted_const(body, c["promoted"])
+            return pc if pc is not None else c
+        return c
+    if r[0] == "def" and r[1][1] != "T" and depth < 6:
+        rv = r[1][2]["r"]
+        if "ref" in rv and isinstance(rv["ref"], int):
+            return resolve_const(body, {"cp": rv["ref"]}, depth + 1)
+    return None
+
+
+def promoted_const(body, k):
+    """the constant a promoted body evaluates to when it is just `&CONST` / `CONST`"""
+    ps = body.d.get("promoted", [])
+    if k >= len(ps):
+        return None
+    found = None
+    for b in ps[k]["blocks"]:
+        for s in b["s"]:
+            if "d" in s and "use" in s["r"] and "c" in s["r"]["use"]:
+                found = s["r"]["use"]["c"]
+    return found
+
+
 def str_eq_const(body, term):
     """if term is PartialEq::eq::<str,str>(x, const) (either order) return (other_operand, const_str)"""
     f = term["call"]
@@ -178,9 +207,9 @@ def str_eq_const(body, term):
         return None
     a, b = term["args"][0], term["args"][1]
     for x, y in ((a, b), (b, a)):
-        r = resolve_copy(body, y)
-        if r[0] == "const" and "str" in r[1]:
-            return (x, r[1]["str"])
+        c = resolve_const(body, y)
+        if c is not None and "str" in c:
+            return (x, c["str"])
     return None
 
 
